@@ -665,14 +665,16 @@ func (w *_assemblerRepr) asKinded(stg schema.UnionRepresentation_Kinded, kind da
 			continue
 		}
 		w2 := *w
-		goType := w.val.Field(idx).Type().Elem()
+		// (The union itself sits behind a pointer when it is an optional or nullable field.)
+		unionVal := (*_assembler)(w).createNonPtrVal()
+		goType := unionVal.Field(idx).Type().Elem()
 		valPtr := reflect.New(goType)
 		w2.val = valPtr.Elem()
 		w2.schemaType = member
 
 		// Layer a new finish func on top, to set Index/Value.
 		w2.finish = func() error {
-			unionSetMember(w.val, idx, valPtr)
+			unionSetMember(unionVal, idx, valPtr)
 			if w.finish != nil {
 				if err := w.finish(); err != nil {
 					return err
